@@ -67,7 +67,7 @@ def _mk_chain_boost(sname):
         ca = ctx.mod("cal_angle")
         parts, chains = _structures(P)[sname]
 
-        def RV(Pm, p):
+        def RV(Pm, p, *_a, **_k):
             a = [tm._l(x) for x in shim._arr(Pm).reshape(-1)] + [tm._l(x) for x in shim._arr(p).reshape(-1)]
             o = np.empty((1, 4), dtype=object)
             for k in range(4):
@@ -180,12 +180,12 @@ def _mk_frames(sname):
         real_euler = ca.EulerAngle.angle_zx_z_getx
         ang_of = {}
 
-        def chain_boost(data, chain):
+        def chain_boost(data, chain, *_a, **_k):
             return {d: {"rest_p": {j: shim.sym_tensor("q_%s_%s" % (d.core, j), (1, 4)) for j in d.outs}} for d in chain}
 
         cnt = [0]
 
-        def euler(z1, x1, z2):
+        def euler(z1, x1, z2, *_a, **_k):
             cnt[0] += 1
             k = cnt[0]
             ang = ca.EulerAngle(shim.sym_tensor("al%d" % k, (1,)), shim.sym_tensor("be%d" % k, (1,)), shim.sym_tensor("ga%d" % k, (1,)))
@@ -307,7 +307,7 @@ def _mk_alignment(sname, final_rest, perm):
         real_SU2M = ca.SU2M
         frames = {}   # chain -> {"r_matrix": {particle: SU2M}, "b_matrix": {...}}
 
-        def helicity(data, chain, base_z=None, base_x=None):
+        def helicity(data, chain, base_z=None, base_x=None, *_a, **_k):
             ret = {}
             tag = "c%d" % len(frames)
             rm, bm = {}, {}
